@@ -23,7 +23,8 @@ EXPLANATION = (
     '(SET.*) the container pairing rules of C19 that the table relies on: one caller of the cleanup slot, '
     'guarded dispose on detached nodes, count adjusted once per path, list links repaired on insert, '
     'replace and remove, no use of a disposed node.'
-    ' Rounds 8-9: (OWN.1) per-client module records own nothing but themselves; (WMC.2) an event that carries a request is kept in it; (MPT.4) the reader keeps being woken while input is left.')
+    ' Rounds 8-9: (OWN.1) per-client module records own nothing but themselves; (WMC.2) an event that carries a request is kept in it; (MPT.4) the reader keeps being woken while input is left.'
+    ' Hunt round 1: (WMC.3) the reference discipline of the query module (one counted reference per awaited bit, given back once), shared with C07; (WIRE.6) the announcement handler may hand the previous holder of the announced id to the withdrawing handler.')
 ASSUMPTIONS = ['clang 14 CFG', 'set_remove/set_clear with no_dispose == 0 run the set\'s cleanup on the removed element and free it (C19)']
 
 
@@ -375,6 +376,10 @@ def module_records_are_flat(P, R, rule='C10.OWN.1'):
 
 def run(P, R, tier):
     module_records_are_flat(P, R)
+    # a request's part in a module: the references it holds on services are counted once per awaited bit and given back
+    # once - a reference nobody owns any more keeps a retired service (and its slot) for the life of the process
+    from .. import holds as _holds
+    _holds.refs_discipline(P, R, 'C10.WMC.3')
     announced_ids_nameable(P, R)
     # withdrawals and registrations must find the request they are about
     from .c08 import junk_inert
